@@ -1,9 +1,9 @@
 (* Instance of the C03 model for the code as it is now, codec, and
    [run_C03]: one case in, M's and S's answers out.
    case   = (macros input)
-   macro  = (via mtoks name isfun params variadic btoks)
-            via 0 = `#define`, 1 = `-D` ; mtoks = tokens of the definition as
-            the real Lexer produced them (M parses them itself);
+   macro  = (via hl mtoks name isfun params variadic btoks)
+            via 0 = `#define`, 1 = `-DHEAD=value`, 2 = `-DHEAD` ; hl = number of tokens of HEAD (for -D);
+            mtoks = tokens of the definition as the real Lexer produced them (M parses them itself);
             name/isfun/params/variadic/btoks = the structured definition for S
    token  = (kind white text)
    answer = (M S)  with  M = (Ok (spelling...) (prev_white...)) | (Err msg) | (DefErr index msg)
@@ -34,11 +34,20 @@ Definition expand_cur (tb : table) (l : list tok) : res (list tok) :=
 Definition define (tb : table) (m : macro) : table :=
   match get_macro tb (m_name m) with Some _ => tb | None => tb ++ [(m_name m, m)] end.
 
-Fixpoint build_table (i : nat) (defs : list (bool * list tok)) (tb : table) : table + (nat * string) :=
+(* how a definition reaches the platform *)
+Inductive via := ViaDefine | ViaD (head_length : nat) (sep : bool) | ViaDorig.
+Definition macro_of (v : via) (l : list tok) : res macro :=
+  match v with
+  | ViaDefine => macro_from_define l
+  | ViaD hl sep => macro_from_dash_d l hl sep
+  | ViaDorig => macro_from_deftokens_orig l
+  end.
+
+Fixpoint build_table (i : nat) (defs : list (via * list tok)) (tb : table) : table + (nat * string) :=
   match defs with
   | [] => inl tb
-  | (viaD, l) :: r =>
-      match (if viaD then macro_from_deftokens l else macro_from_define l) with
+  | (v, l) :: r =>
+      match macro_of v l with
       | Ok m => build_table (S i) r (define tb m)
       | Err e => inr (i, e)
       end
@@ -61,13 +70,20 @@ Definition dec_tok (d : data) : option tok :=
   end.
 Definition btok_of (t : tok) : btok := mkB (tk t) (tw t) (tt t).
 
-Record cmacro := mkC { c_via : bool; c_mtoks : list tok; c_name : string; c_isfun : bool;
+Record cmacro := mkC { c_via : via; c_mtoks : list tok; c_name : string; c_isfun : bool;
                        c_params : list string; c_variadic : bool; c_body : list tok }.
+Definition dec_via (v hl : data) : option via :=
+  match v, as_nat hl with
+  | DInt 0%Z, Some _ => Some ViaDefine
+  | DInt 1%Z, Some n => Some (ViaD n true)
+  | DInt 2%Z, Some n => Some (ViaD n false)
+  | _, _ => None
+  end.
 Definition dec_macro (d : data) : option cmacro :=
   match d with
-  | DList [via; mt; DStr name; isfun; ps; var; bt] =>
-      match as_bool via, as_list_of dec_tok mt, as_bool isfun, as_list_of as_str ps, as_bool var, as_list_of dec_tok bt with
-      | Some v, Some m, Some f, Some p, Some va, Some b => Some (mkC v m name f p va b)
+  | DList [v; hl; mt; DStr name; isfun; ps; var; bt] =>
+      match dec_via v hl, as_list_of dec_tok mt, as_bool isfun, as_list_of as_str ps, as_bool var, as_list_of dec_tok bt with
+      | Some v', Some m, Some f, Some p, Some va, Some b => Some (mkC v' m name f p va b)
       | _, _, _, _, _, _ => None
       end
   | _ => None
